@@ -26,3 +26,15 @@ def time_limit(seconds):
 
 
 CASE_SECONDS = 60
+
+
+def run_case(fn, seconds=None):
+    """fn() under the case limit; a case that ran into it is tried once more with five times the limit before it counts
+    as non-terminating (a loaded machine must not turn into an alarm)"""
+    seconds = seconds or CASE_SECONDS
+    try:
+        with time_limit(seconds):
+            return fn()
+    except CaseTimeout:
+        with time_limit(seconds * 5):
+            return fn()
